@@ -120,6 +120,7 @@ class ActorInterp(Interp):
         self.initial_sb: dict[Any, Obj] = {}
         self.flags: dict[str, bool] = {}
         self.memo: dict[str, Any] = {}         # per-run answers of the environment (cache hit, subscribers)
+        self.facts: dict[Any, bool] = {}       # per-run decided facts (field is None, a <= b, …)
         self.fresh = 0
         self.ret_seq = 0
         self.ret_node: ast.AST | None = None
@@ -130,6 +131,17 @@ class ActorInterp(Interp):
     def snapshot(self) -> Any:
         return {"stored": dict(self.stored), "events": list(self.events), "ret_node": self.ret_node,
                 "cache": dict(self.cache), "inputs": dict(self.inputs)}
+
+    def environment(self, ids: Any) -> dict[str, bool]:
+        """Decide now (instead of on first use) whether bounds are cached and who subscribed."""
+        cached = self.choose(2, "no system bounds cached yet") == 0
+        self.memo["cached"] = cached
+        out = {"cached": cached}
+        for g in ("op", "reg"):
+            has = self.choose(2, f"no {g} subscribers") == 0
+            self.memo[g] = {Sym(f"priority_{g}"): Obj("Sender", group=g)} if has else None
+            out[g] = has
+        return out
 
     def self_obj(self) -> Obj:
         return Obj("self")
@@ -162,7 +174,7 @@ class ActorInterp(Interp):
             broke = False
             for i in range(self.n_messages):
                 item = Obj("SB", ids=self.ids, message=i + 1)
-                self.events.append({"kind": "recv", "value": item, "node": s})
+                self.events.append({"kind": "recv", "value": item, "node": s, "cache": dict(self.cache)})
                 self.assign(s.target, item)
                 try:
                     self.block(s.body)
@@ -188,7 +200,27 @@ class ActorInterp(Interp):
             return ("global", f"{base[1]}.{attr}")
         return super().attr_of(base, attr, node)
 
+    def fork(self, key: Any, label: str, node: ast.AST | None) -> bool:
+        """An environment fact decided once per run (forked); recorded with the construct asking."""
+        if key not in self.facts:
+            self.facts[key] = self.choose(2, label) == 1
+            self.events.append({"kind": "fork", "label": label, "outcome": self.facts[key], "node": node})
+        return self.facts[key]
+
     def get_attr(self, base: Any, attr: str, node: ast.AST) -> Any:
+        if isinstance(base, Obj) and base.cls == "SB" and attr not in base.fields \
+                and attr in ("timestamp", "inclusion_bounds", "exclusion_bounds"):
+            # a SystemBounds message / cache entry: fields are unknown, decided when first read
+            tag = "message" if "message" in base.fields else "cached bounds"
+            n = base.fields.get("message", "")
+            if attr == "timestamp":
+                base.fields[attr] = Sym(f"{tag}{n}.timestamp")
+            elif self.fork((id(base), attr), f"{tag}{n}.{attr} is None", node):
+                base.fields[attr] = None
+            else:
+                base.fields[attr] = Obj("Bounds", lower=Sym(f"{tag}{n}.{attr}.lower"),
+                                        upper=Sym(f"{tag}{n}.{attr}.upper"))
+            return base.fields[attr]
         if isinstance(base, Obj) and base.cls == "self":
             if attr in GROUP_ATTRS:
                 return Obj("Group", name=GROUP_ATTRS[attr])
@@ -391,11 +423,8 @@ class ActorInterp(Interp):
         return super().contains(container, item, node)
 
     def compare_values(self, op: ast.cmpop, a: Any, b: Any, node: ast.AST) -> Any:
-        if isinstance(op, (ast.Eq, ast.NotEq)):
-            sym = (Sym, Lin, Obj)
-            if (a is None and isinstance(b, sym)) or (b is None and isinstance(a, sym)):
-                return isinstance(op, ast.NotEq)  # a Quantity / dataclass never equals None
-        return super().compare_values(op, a, b, node)
+        return compare_opaque(self, op, a, b, node) if _opaque_pair(a, b) else \
+            super().compare_values(op, a, b, node)
 
     def truth_of(self, v: Any, node: ast.AST | None) -> bool:
         if isinstance(v, Flag):
@@ -410,12 +439,272 @@ class ActorInterp(Interp):
 _MISSING = Sym("<missing>")
 
 
+def _opaque_pair(a: Any, b: Any) -> bool:
+    sym = (Sym, Lin, Obj)
+    return (isinstance(a, sym) and (b is None or isinstance(b, sym))) or (a is None and isinstance(b, sym))
+
+
+def compare_opaque(interp: Any, op: ast.cmpop, a: Any, b: Any, node: ast.AST) -> bool:
+    """==, !=, <, <=, >, >= on opaque values: None never equals a value, a value equals itself,
+    anything else is an unknown fact of the environment (forked once per run, kept consistent
+    between an operator and its mirror / complement)."""
+    eq = isinstance(op, (ast.Eq, ast.NotEq))
+    if a is None or b is None:
+        if eq:
+            return isinstance(op, ast.NotEq)
+        raise _Raise("TypeError", node)
+    if not (isinstance(a, Sym) and isinstance(b, Sym)):
+        if eq and a is b:
+            return isinstance(op, ast.Eq)
+        raise AnalysisError(f"comparison of {a!r} and {b!r} not modelled "
+                            f"(line {getattr(node, 'lineno', '?')})")
+    if a is b:
+        return isinstance(op, (ast.Eq, ast.LtE, ast.GtE))
+    if eq:
+        same = interp.fork(("eq", frozenset((a.name, b.name))), f"{a} == {b}", node)
+        return same if isinstance(op, ast.Eq) else not same
+    # order: decide `x < y` and `x == y` for the sorted pair, derive the rest
+    x, y = sorted((a, b), key=lambda v: v.name)
+    if interp.fork(("eq", frozenset((a.name, b.name))), f"{x} == {y}", node):
+        return isinstance(op, (ast.LtE, ast.GtE))
+    x_lt_y = interp.fork(("lt", x.name, y.name), f"{x} < {y}", node)
+    a_lt_b = x_lt_y if a is x else not x_lt_y
+    return a_lt_b if isinstance(op, (ast.Lt, ast.LtE)) else not a_lt_b
+
+
 def _is_static(fn: ast.AST) -> bool:
     return any(isinstance(d, ast.Name) and d.id == "staticmethod" for d in getattr(fn, "decorator_list", []))
 
 
 def is_shift(v: Any) -> bool:
     return isinstance(v, Obj) and v.cls == "Shifted"
+
+
+# ------------------------------------------------------------------------------ the resolver
+MATRYOSHKA = "microgrid._power_managing._matryoshka:Matryoshka"
+
+
+class ResolverInterp(Interp):
+    """Interprets Matryoshka.calculate_target_power over: bucket of the group absent / empty /
+    non-empty, stored target absent / present, validation passes / fails, fresh target equal /
+    unequal to the stored one, must_return_power.  `_calc_target_power` and
+    `_validate_component_ids` are opaque (C03 decides them); other private helpers are interpreted."""
+
+    OPAQUE = ("_calc_target_power", "_validate_component_ids")
+
+    def __init__(self, prog: Program, cls: ClassInfo) -> None:
+        super().__init__()
+        self.prog = prog
+        self.cls = cls
+        self.reset()
+
+    def reset(self) -> None:
+        self.bucket = "absent"            # absent | empty | nonempty | unknown
+        self.bucket_obj = Obj("Bucket")
+        self.stored: Any = None
+        self.events: list[dict[str, Any]] = []
+        self.facts: dict[Any, bool] = {}
+        self.flags: dict[str, bool] = {}
+        self.inputs: dict[str, Any] = {}
+        self.ids: Any = None
+        self.ret_seq = 0
+        self.ret_node: ast.AST | None = None
+        self.last_test: ast.AST | None = None
+        self.valid: bool | None = None
+
+    def snapshot(self) -> Any:
+        return {"bucket": self.bucket, "stored": self.stored, "events": list(self.events),
+                "inputs": dict(self.inputs), "ret_node": self.ret_node, "last_test": self.last_test,
+                "valid": self.valid, "facts": dict(self.facts)}
+
+    def fork(self, key: Any, label: str, node: ast.AST | None) -> bool:
+        if key not in self.facts:
+            self.facts[key] = self.choose(2, label) == 1
+        return self.facts[key]
+
+    def same_ids(self, v: Any, what: str) -> None:
+        if v is not self.ids:
+            raise AnalysisError(f"{what}: key `{v!r}` is not the component group under analysis")
+
+    def stmt(self, s: ast.stmt) -> None:
+        if isinstance(s, ast.Return):
+            before = self.ret_seq
+            v = self.eval(s.value) if s.value is not None else None
+            if self.ret_seq == before:
+                self.ret_node = s
+            self.ret_seq += 1
+            raise _Return(v)
+        if isinstance(s, (ast.If, ast.While)):
+            self.last_test = s.test
+        super().stmt(s)
+
+    def eval(self, e: ast.AST | None) -> Any:
+        if isinstance(e, ast.IfExp):
+            self.last_test = e.test
+        return super().eval(e)
+
+    # -------------------------------------------------------------- names / attributes
+    def unknown_name(self, ident: str, node: ast.AST) -> Any:
+        mod = self.cls.module
+        if ident in mod.functions:
+            return ("function", mod.functions[ident])
+        return ("global", ident)
+
+    def attr_of(self, base: Any, attr: str, node: ast.AST) -> Any:
+        if isinstance(base, tuple) and base and base[0] == "global":
+            return ("global", f"{base[1]}.{attr}")
+        return super().attr_of(base, attr, node)
+
+    def get_attr(self, base: Any, attr: str, node: ast.AST) -> Any:
+        if isinstance(base, Obj) and base.cls == "self":
+            if attr == "_component_buckets":
+                return Obj("Buckets")
+            if attr == "_target_power":
+                return Obj("Targets")
+            if attr in self.OPAQUE:
+                return ("resolver", attr)
+            m = self.prog.resolve_method(self.cls, attr)
+            if m is not None and m.cls is not None:
+                return ("method", m)
+            raise AnalysisError(f"Matryoshka: self.{attr} not modelled in the C11 domain")
+        return super().get_attr(base, attr, node)
+
+    def obj_method(self, base: Obj, attr: str, node: ast.AST) -> Any:
+        if base.cls in ("Buckets", "Targets", "Bucket"):
+            return ("state", base.cls, attr)
+        raise AnalysisError(f"Matryoshka: {base.cls}.{attr} not modelled (line {getattr(node, 'lineno', '?')})")
+
+    def get_item(self, base: Any, key: Any, node: ast.AST) -> Any:
+        if isinstance(base, Obj) and base.cls == "Buckets":
+            self.same_ids(key, "self._component_buckets[...]")
+            if self.bucket == "absent":
+                raise _Raise("KeyError", node)
+            return self.bucket_obj
+        if isinstance(base, Obj) and base.cls == "Targets":
+            self.same_ids(key, "self._target_power[...]")
+            if self.stored is None:
+                raise _Raise("KeyError", node)
+            return self.stored
+        return super().get_item(base, key, node)
+
+    def set_item(self, base: Any, key: Any, v: Any, node: ast.AST) -> None:
+        if isinstance(base, Obj) and base.cls == "Targets":
+            self.same_ids(key, "self._target_power[...] = ...")
+            self.stored = v
+            self.events.append({"kind": "store", "value": v, "node": node})
+            return
+        if isinstance(base, Obj) and base.cls == "Buckets":
+            self.same_ids(key, "self._component_buckets[...] = ...")
+            if isinstance(v, set) and not v:
+                self.bucket = "empty"
+            elif v is self.bucket_obj:
+                pass
+            else:
+                raise AnalysisError("Matryoshka: bucket replaced by a value that is not modelled")
+            return
+        super().set_item(base, key, v, node)
+
+    def delete(self, t: ast.AST) -> None:
+        if isinstance(t, ast.Subscript):
+            base = self.eval(t.value)
+            if isinstance(base, Obj) and base.cls in ("Buckets", "Targets"):
+                raise AnalysisError(f"Matryoshka: del on {base.cls} not modelled")
+        super().delete(t)
+
+    def contains(self, container: Any, item: Any, node: ast.AST) -> bool:
+        if isinstance(container, Obj) and container.cls == "Buckets":
+            self.same_ids(item, "`in self._component_buckets`")
+            return self.bucket != "absent"
+        if isinstance(container, Obj) and container.cls == "Targets":
+            self.same_ids(item, "`in self._target_power`")
+            return self.stored is not None
+        if isinstance(container, Obj) and container.cls == "Bucket":
+            if self.bucket in ("absent", "empty"):
+                return False
+            return self.fork(("member", id(item)), "the proposal is already in the bucket", node)
+        return super().contains(container, item, node)
+
+    # -------------------------------------------------------------- calls
+    def apply(self, fn: Any, pos: list[Any], kw: dict[str, Any], node: ast.AST) -> Any:  # noqa: C901
+        if not (isinstance(fn, tuple) and fn):
+            return super().apply(fn, pos, kw, node)
+        tag = fn[0]
+        if tag in ("method", "function"):
+            fi: FuncInfo = fn[1]
+            me = Obj("self") if tag == "method" and not _is_static(fi.node) else None
+            return self.call_node(fi.node, self.bind_args(fi.node, pos, kw, self_value=me))
+        if tag == "resolver":
+            fi2 = self.prog.resolve_method(self.cls, fn[1])
+            if fi2 is None:
+                raise AnalysisError(f"anchor Matryoshka.{fn[1]} not found")
+            a = by_name(fi2.params[1:], pos, kw, f"self.{fn[1]}")
+            vals = [a.get(p, _MISSING) for p in fi2.params[1:]]
+            if fn[1] == "_validate_component_ids":
+                if not vals or vals[0] is not self.ids:
+                    raise AnalysisError("_validate_component_ids call shape not recognised")
+                self.valid = not self.fork("valid", "component ids fail validation", node)
+                return self.valid
+            fresh = Sym("fresh_target")
+            self.events.append({"kind": "calc", "args": vals, "result": fresh, "node": node,
+                                "bucket_state": self.bucket})
+            return fresh
+        if tag == "state":
+            return self.state_call(fn[1], fn[2], pos, kw, node)
+        return super().apply(fn, pos, kw, node)
+
+    def state_call(self, cls: str, meth: str, pos: list[Any], kw: dict[str, Any], node: ast.AST) -> Any:
+        if cls == "Buckets" and meth in ("get", "setdefault") and pos:
+            self.same_ids(pos[0], f"self._component_buckets.{meth}(...)")
+            if meth == "setdefault":
+                if self.bucket == "absent":
+                    if len(pos) > 1 and not (isinstance(pos[1], set) and not pos[1]):
+                        raise AnalysisError("Matryoshka: bucket default is not an empty set")
+                    self.bucket = "empty"
+                return self.bucket_obj
+            if self.bucket == "absent":
+                return pos[1] if len(pos) > 1 else None
+            return self.bucket_obj
+        if cls == "Targets" and meth == "get" and pos:
+            self.same_ids(pos[0], "self._target_power.get(...)")
+            return self.stored if self.stored is not None else (pos[1] if len(pos) > 1 else None)
+        if cls == "Bucket" and meth in ("add", "remove", "discard") and len(pos) == 1:
+            if meth == "add":
+                self.bucket = "nonempty"
+            elif self.bucket == "nonempty":
+                self.bucket = "unknown"
+            return None
+        raise AnalysisError(f"Matryoshka: {cls}.{meth}(...) not modelled (line {getattr(node, 'lineno', '?')})")
+
+    def apply_other(self, fn: Any, pos: list[Any], kw: dict[str, Any], node: ast.AST) -> Any:
+        if isinstance(fn, tuple) and fn and fn[0] == "global":
+            head = fn[1].split(".", 1)[0]
+            if head in ("_logger", "logging", "_log"):
+                return None
+            if fn[1] == "set" and not pos and not kw:
+                return set()
+            if fn[1] == "len" and len(pos) == 1 and pos[0] is self.bucket_obj:
+                return 1 if self.truth_of(pos[0], node) else 0
+            raise AnalysisError(f"Matryoshka: call of {fn[1]} not modelled (line {getattr(node, 'lineno', '?')})")
+        return super().apply_other(fn, pos, kw, node)
+
+    # -------------------------------------------------------------- domain
+    def compare_values(self, op: ast.cmpop, a: Any, b: Any, node: ast.AST) -> Any:
+        return compare_opaque(self, op, a, b, node) if _opaque_pair(a, b) else \
+            super().compare_values(op, a, b, node)
+
+    def truth_of(self, v: Any, node: ast.AST | None) -> bool:
+        if isinstance(v, Flag):
+            if v.name not in self.flags:
+                self.flags[v.name] = self.choose(2, f"{v.name} is true") == 1
+            return self.flags[v.name]
+        if v is self.bucket_obj:
+            if self.bucket == "unknown":
+                self.bucket = "nonempty" if self.fork("left", "proposals are left in the bucket", node) \
+                    else "empty"
+            return self.bucket == "nonempty"
+        if isinstance(v, (Sym, Lin, Obj)):
+            return True
+        return super().truth_of(v, node)
 
 
 # ------------------------------------------------------------------------------ reachability
@@ -481,6 +770,21 @@ def _seg(source: str, node: ast.AST) -> str:
     if seg is None:
         raise AnalysisError("source segment not available")
     return seg
+
+
+def _reads_buckets(fn: ast.AST, e: ast.AST) -> bool:
+    """`e` is a read of self._component_buckets or a local assigned from one."""
+    if "_component_buckets" in ast.unparse(e):
+        return True
+    if isinstance(e, ast.Name):
+        for n in walk_no_nested(fn):
+            if isinstance(n, ast.Assign) and any(isinstance(t, ast.Name) and t.id == e.id for t in n.targets) \
+                    and "_component_buckets" in ast.unparse(n.value):
+                return True
+            if isinstance(n, ast.AnnAssign) and isinstance(n.target, ast.Name) and n.target.id == e.id \
+                    and n.value is not None and "_component_buckets" in ast.unparse(n.value):
+                return True
+    return False
 
 
 def structural_controls(prog: Program, actor: str, module: str,
@@ -562,16 +866,43 @@ def structural_controls(prog: Program, actor: str, module: str,
                 if first is not None:
                     built["regular reports not shifted"] = _splice(src, c, _seg(src, first))
                     break
+    # 5. the resolver skips the recomputation for an emptied bucket (`is None` test -> truthiness)
+    mmod = prog.module(MATRYOSHKA.split(":")[0])
+    rc = prog.cls(MATRYOSHKA).methods.get("calculate_target_power")
+    sources = {module: src, mmod.name: mmod.source}
+    if rc is not None:
+        for n in walk_no_nested(rc.node):
+            if isinstance(n, ast.If) and isinstance(n.test, ast.Compare) and len(n.test.ops) == 1 \
+                    and isinstance(n.test.ops[0], ast.Is) and isinstance(n.test.comparators[0], ast.Constant) \
+                    and n.test.comparators[0].value is None and len(n.body) == 1 and isinstance(n.body[0], ast.Return) \
+                    and (n.body[0].value is None or (isinstance(n.body[0].value, ast.Constant)
+                                                     and n.body[0].value.value is None)) \
+                    and _reads_buckets(rc.node, n.test.left):
+                built["resolver skips an emptied bucket"] = _splice(
+                    mmod.source, n.test, f"not {_seg(mmod.source, n.test.left)}")
+                break
+    if rc is not None and "resolver skips an emptied bucket" not in built:
+        for n in walk_no_nested(rc.node):
+            if isinstance(n, ast.If) and isinstance(n.test, ast.Compare) and len(n.test.ops) == 1 \
+                    and isinstance(n.test.ops[0], ast.NotIn) \
+                    and ast.unparse(n.test.comparators[0]) == "self._component_buckets" \
+                    and len(n.body) == 1 and isinstance(n.body[0], ast.Return) \
+                    and (n.body[0].value is None or (isinstance(n.body[0].value, ast.Constant)
+                                                     and n.body[0].value.value is None)):
+                built["resolver skips an emptied bucket"] = _splice(
+                    mmod.source, n.test, f"not self._component_buckets.get({_seg(mmod.source, n.test.left)})")
+                break
     out = []
     for name, module_, old, new, rule in fallback:
+        base = sources.get(module_, src)
         patched = built.get(name)
-        if patched is not None and patched != src:
+        if patched is not None and patched != base:
             try:
                 ast.parse(patched)
             except SyntaxError:
                 patched = None
-        if patched is not None and patched != src:
-            out.append((name, module_, src, patched, rule))
+        if patched is not None and patched != base:
+            out.append((name, module_, base, patched, rule))
         else:
             out.append((name, module_, old, new, rule))
     return out
